@@ -52,3 +52,53 @@ Theorem C10_print_meaning_exact : forall rho ts, Forall exact_item (items ts) ->
   (ast_meaning rho (to_ast_list ts) <-> sat_list rho ts).
 Proof. exact print_meaning_exact_pairs. Qed.
 Print Assumptions C10_print_meaning_exact.
+
+(* ==== T1 tie (JSON side) ==== *)
+Require Import PyDict PyLoop PyJson JsonGen JsonGenBase JsonGenValidate JsonGenDict JsonGenFile.
+(* T1 tie: to_machine_dict / to_dict / from_dict (polyhedral_iocontract.py) and the reader and writer of fileio.py between json.load and json.dumps as translated ON THIS RUN (gen/JsonGen.v) ARE the functions of model/Json.v used in the round-trip theorems above. proofs/JsonGen*.v *)
+Theorem C10_code_to_machine_dict :
+  forall c : pcontract,
+       Forall distinct_vars (pa c) ->
+       Forall distinct_vars (pg c) -> PolyhedralIoContract_to_machine_dict c = to_machine_dict c.
+Proof. exact @to_machine_dict_eq. Qed.
+Print Assumptions C10_code_to_machine_dict.
+Theorem C10_code_to_dict :
+  forall (to_str_list : list pterm -> list string) (c : pcontract),
+       PolyhedralIoContract_to_dict to_str_list c = to_dict to_str_list c.
+Proof. exact @to_dict_eq. Qed.
+Print Assumptions C10_code_to_dict.
+Theorem C10_code_from_dict :
+  forall (s2f : string -> option Q) (pstr : json -> string)
+         (init : list pterm -> list pterm -> list var -> list var -> bool -> M pcontract) 
+         (contract : json) (simplify : bool),
+       (forall (a g : list pterm) (i o : list var), init a g i o simplify = pc_init a g i o) ->
+       json_wf contract ->
+       PolyhedralIoContract_from_dict s2f pstr init contract simplify = from_dict s2f pstr contract.
+Proof. exact @from_dict_eq. Qed.
+Print Assumptions C10_code_from_dict.
+Theorem C10_code_read_file :
+  forall (s2f : string -> option Q) (pstr : json -> string)
+         (init : list pterm -> list pterm -> list var -> list var -> bool -> M pcontract) 
+         (file_data : json),
+       (forall (a g : list pterm) (i o : list var), init a g i o true = pc_init a g i o) ->
+       json_wf file_data ->
+       mmap pair_up (fileio_read_contracts_from_file s2f pstr init strings_boundary compound_boundary file_data) =
+       read_file s2f pstr file_data.
+Proof. exact @read_file_eq. Qed.
+Print Assumptions C10_code_read_file.
+Theorem C10_code_write_machine :
+  forall (to_str_list : list pterm -> list string) (K : Type) (compound_to_dict : K -> json)
+         (cs : list (string * pcontract)),
+       Forall (fun p : string * pcontract => distinct_vars_c (snd p)) cs ->
+       fileio_write_contracts_to_file to_str_list compound_to_dict
+         (map (fun p : string * pcontract => APoly (snd p)) cs) (map fst cs) true = ret (write_file_machine cs).
+Proof. exact @write_machine_eq. Qed.
+Print Assumptions C10_code_write_machine.
+Theorem C10_code_write_strings :
+  forall (to_str_list : list pterm -> list string) (K : Type) (compound_to_dict : K -> json)
+         (cs : list (string * pcontract)),
+       fileio_write_contracts_to_file to_str_list compound_to_dict
+         (map (fun p : string * pcontract => APoly (snd p)) cs) (map fst cs) false =
+       ret (JList (map (fun p : string * pcontract => write_entry_strings to_str_list (fst p) (snd p)) cs)).
+Proof. exact @write_strings_eq. Qed.
+Print Assumptions C10_code_write_strings.
